@@ -793,3 +793,74 @@ fn check_feasibility(
 
 #[cfg(test)]
 mod tests;
+
+/// Verification hooks: access to the private node solver on plain data (only with feature `verif`)
+#[cfg(feature = "verif")]
+pub mod verif_api {
+    use super::*;
+
+    pub struct Pre(PreComputedProblem);
+
+    /// A branch and bound node as plain data: (cancelled, enforced, shrinked)
+    pub type NodeData = (Vec<usize>, Vec<usize>, Vec<(usize, usize)>);
+
+    pub enum NodeDump {
+        NoSolution,
+        Infeasible(Vec<NodeData>, Score),
+        Feasible(Assignment, Score),
+    }
+
+    pub fn weight_offset() -> i64 {
+        WEIGHT_OFFSET as i64
+    }
+
+    pub fn precompute(
+        courses: &[Course],
+        participants: &[Participant],
+        rooms: Option<&Vec<usize>>,
+    ) -> Pre {
+        Pre(precompute_problem(courses, participants, rooms))
+    }
+
+    /// (rows, columns) of the matrix and the padded room list
+    pub fn pre_info(pre: &Pre) -> (usize, usize, Option<Vec<usize>>) {
+        (
+            pre.0.adjacency_matrix.dim().0,
+            pre.0.adjacency_matrix.dim().1,
+            pre.0.room_sizes.clone(),
+        )
+    }
+
+    fn node_data(n: &BABNode) -> NodeData {
+        (
+            n.cancelled_courses.clone(),
+            n.enforced_courses.clone(),
+            n.shrinked_courses.clone(),
+        )
+    }
+
+    pub fn run_node(
+        courses: &[Course],
+        participants: &[Participant],
+        pre: &Pre,
+        node: &NodeData,
+    ) -> NodeDump {
+        let node = BABNode {
+            cancelled_courses: node.0.clone(),
+            enforced_courses: node.1.clone(),
+            shrinked_courses: node.2.clone(),
+        };
+        match run_bab_node(courses, participants, &pre.0, node, false) {
+            NoSolution => NodeDump::NoSolution,
+            Infeasible(kids, score) => {
+                NodeDump::Infeasible(kids.iter().map(node_data).collect(), score)
+            }
+            Feasible(assignment, score) => NodeDump::Feasible(assignment, score),
+        }
+    }
+
+    /// Parse the `Debug` representation of a node (as noted by the instrumented engine)
+    pub fn node_order_key(node: &NodeData) -> usize {
+        node.0.len() + node.1.len() + node.2.len()
+    }
+}
